@@ -90,6 +90,13 @@ def cases(tier, rng, dist):
                "strat1": rng.random() < 0.6, "strat2": rng.random() < 0.6, "r1": [[rng.randint(-3, 3), rng.randint(-3, 3)] for _ in range(n1)],
                "r2": [[rng.randint(-3, 3), rng.randint(-3, 3)] for _ in range(n2)], "ops": ops, "share_labels": rng.random() < 0.5,
                "a1": rng.randint(0, 10**9), "a2": rng.randint(0, 10**9)}
+    # ONE plain SHA256 instance held by an Experiment's Randomizer AND used directly by the caller (or by a second Randomizer):
+    # re-seeding the Experiment with an int gives it a generator of its own and must leave the shared instance where it was
+    for k in range(16 if tier == "quick" else 160):
+        n = rng.randint(4, 7)
+        gg = [0, 1] + [rng.randrange(2) for _ in range(n - 2)]; rng.shuffle(gg)
+        yield {"f": "sharedgen", "g": gg, "s1": [rng.randint(0, 1) for _ in range(n)], "strat": rng.random() < 0.5, "seed": rng.randint(0, 10**6), "reseed": rng.randint(0, 10**6),
+               "via": rng.choice(["randomize", "sim_npc", "wy"]), "in_place": rng.random() < 0.5, "other": rng.choice(["direct", "direct", "randomizer"])}
     # FAILURE PATHS: a call that is aborted in the middle of its repetition loop (a test function that raises an ordinary exception
     # or a non-Exception such as Ctrl-C), or that is handed an unusable seed, must leave the Experiment usable and, with
     # in_place=False, exactly as it was: same assignment, same Randomizer object, same generator object, not advanced
@@ -133,6 +140,53 @@ def mk_tests(spec):
     for name, idx in spec:
         out.append(Experiment.make_test_array(fns[name], [idx])[0])
     return out
+
+
+def run_sharedgen(c):
+    from cryptorandom.cryptorandom import SHA256
+    from permute import utils as _u
+    n = len(c["g"]); tests = mk_tests([["mean_diff", 0]])
+    fn = NPC.randomize_in_strata if c["strat"] else NPC.randomize_group
+    def mkexp(seed_obj):
+        return Experiment(group=list(c["g"]), response=[[i * i] for i in range(n)], covariate=[[v, 7] for v in c["s1"]], randomizer=Experiment.Randomizer(randomize=fn, seed=seed_obj))
+    def reseeding_call(e):
+        if c["via"] == "randomize":
+            return [int(v) for v in e.randomize(in_place=c["in_place"], seed=c["reseed"]).group]
+        if c["via"] == "sim_npc":
+            r = NPC.sim_npc(e, tests + tests, combine="tippett", in_place=c["in_place"], reps=2, seed=c["reseed"]); return [float(r[0]), [int(v) for v in e.group]]
+        r = NPC.westfall_young(e, tests, in_place=c["in_place"], reps=2, seed=c["reseed"]); return [[float(v) for v in r[0]], [int(v) for v in e.group]]
+    x = np.arange(7.0)
+    def other_use(g, holder):
+        if holder is None:
+            return [float(v) for v in _u.permute(x, g)]
+        return [int(v) for v in holder.randomize(in_place=True).group]
+    g = SHA256(c["seed"]); e = mkexp(g)
+    holder = mkexp(g) if c["other"] == "randomizer" else None          # a second Experiment whose Randomizer holds the SAME instance
+    out = {"r1": list(guarded(lambda: other_use(g, holder))), "re": list(guarded(lambda: reseeding_call(e))), "r2": list(guarded(lambda: other_use(g, holder))),
+           "after": list(guarded(lambda: [int(v) for v in e.randomize(in_place=True).group]))}
+    # the same uses of the shared instance WITHOUT the re-seeded Experiment in between
+    g2 = SHA256(c["seed"]); holder2 = mkexp(g2) if c["other"] == "randomizer" else None
+    out["t1"] = list(guarded(lambda: other_use(g2, holder2))); out["t2"] = list(guarded(lambda: other_use(g2, holder2)))
+    # the re-seeded call on a fresh Experiment that never held the shared instance
+    e3 = mkexp(12345)
+    out["re_fresh"] = list(guarded(lambda: reseeding_call(e3))); out["after_fresh"] = list(guarded(lambda: [int(v) for v in e3.randomize(in_place=True).group]))
+    return out
+
+
+def oracle_sharedgen(c, o):
+    from ..core_runs import same_result
+    for k in ("r1", "re", "r2", "after", "t1", "t2", "re_fresh", "after_fresh"):
+        if o[k][0] != "ok":
+            _v = emit({"why": f"shared SHA256 instance, {c['via']}(seed={c['reseed']}): step {k} raised {o[k][:3]}", "cls": "experiment:raises"})
+            if _v: return _v
+            return None
+    if not same_result(o["r1"][1], o["t1"][1]) or not same_result(o["r2"][1], o["t2"][1]):
+        _v = emit({"why": f"a SHA256 instance shared by an Experiment's Randomizer and {'a second Randomizer' if c['other'] == 'randomizer' else 'the caller (permute(x, g))'}: after {c['via']}(in_place={c['in_place']}, seed={c['reseed']}) on the Experiment the shared instance yields {o['r2'][1]}, without that call {o['t2'][1]} (first use {o['r1'][1]} / {o['t1'][1]}): re-seeding the Experiment disturbed the instance it no longer uses", "cls": "experiment:irreproducible"})
+        if _v: return _v
+    if not same_result(o["re"][1], o["re_fresh"][1]) or (c["in_place"] and not same_result(o["after"][1], o["after_fresh"][1])):
+        _v = emit({"why": f"{c['via']}(seed={c['reseed']}) on an Experiment that held a shared SHA256 instance returned {o['re'][1]} then {o['after'][1]}; on a fresh Experiment {o['re_fresh'][1]} then {o['after_fresh'][1]}", "cls": "experiment:irreproducible"})
+        if _v: return _v
+    return None
 
 
 def run_interleave(c):
@@ -347,6 +401,8 @@ def run(c):
         return run_failhist(c)
     if f == "interleave":
         return run_interleave(c)
+    if f == "sharedgen":
+        return run_sharedgen(c)
     if f == "testfn":
         e = Experiment(group=labels_of(c), response=c["resp"])
         fn = {"mean_diff": Experiment.TestFunc.mean_diff, "ttest": Experiment.TestFunc.ttest, "anova": Experiment.TestFunc.one_way_anova}[c["fn"]]
@@ -555,6 +611,8 @@ def oracle(c, o):
         return oracle_failhist(c, o)
     if f == "interleave":
         return oracle_interleave(c, o)
+    if f == "sharedgen":
+        return oracle_sharedgen(c, o)
     if f == "restrat":
         return oracle_restrat(c, o)
     if f == "types":
@@ -742,6 +800,8 @@ def nontrivial(c, o):
         return o["failed"][0] == "exc"
     if c["f"] == "interleave":
         return len({op["on"] for op in c["ops"]}) == 2
+    if c["f"] == "sharedgen":
+        return o["re"][0] == "ok"
     if c["f"] != "history":
         return c["f"] == "testfn" and o["r"][0] == "ok"
     ips = [op["in_place"] for op in c["ops"][:len(o["steps"])]]
